@@ -21,6 +21,7 @@ import pyttb as ttb
 
 from .. import gen, ref
 from ..core import Abort, cell
+from ._live import Live
 
 logging.getLogger().setLevel(logging.ERROR)  # pyttb logs a warning for every copy=False it cannot honour
 
@@ -47,7 +48,24 @@ RULE = (
     "data for the tenmat / sptenmat constructors.  Magnitudes: Kruskal weights / Tucker core / all sum parts scaled "
     "by 1e-6 and 1e+6 (bounds are relative).  Sums may contain a part and its negation (exact cancellation).  Every "
     "cell repeats its first conversion at the end (same result), and dense->sparse / sparse->dense convert once "
-    "more after the operand was edited in place by a public assignment (the new tensor must come out)."
+    "more after the operand was edited in place by a public assignment (the new tensor must come out).  "
+    "Round 3 - (several live objects) every object a cell obtains (operand, every conversion result, the arrays "
+    "returned by double / find / spmatrix, the arrays a constructor was given) stays alive with a copy of its state; "
+    "after the conversions, after an edit of the operand, and after each object in turn was edited in place through the "
+    "public interface (T[...] = B, S[subs] = v, M[:, :] = B, M[r, c] = v, a[...] = B; every stored value changed), all "
+    "the others must be exactly what they were (clause <object>:changed-by:edit-of-<other>); objects obtained with "
+    "copy=False may share with their source and are exempt from each other; Kruskal / Tucker / sum conversions are asked "
+    "for again after their results were edited.  (near-special values) cells */special: Kruskal / Tucker factor "
+    "matrices that are identity / permutation / diagonal / orthonormal / unit-norm non-orthogonal columns / all ones / "
+    "zero (rectangular: the leading block; square half of the time) exactly, perturbed by 1e-12..1e-5 on their "
+    "nonzeros / on their zeros / everywhere, or generic; weights all one / within 1e-12..1e-5 of one / of magnitude "
+    "1e-9..1e-12 / partly zero; cores superdiagonal / all ones / single entry, exactly or perturbed; a Kruskal column "
+    "of norm ~1e-18 carried by a weight ~1e+18 and the reverse; whole tensors scaled by 1e-12.  (sizes) cells "
+    "large/*: a few dense tensors of 27000 cells and sparse tensors with 1e4..5e4 stored nonzeros per run through the "
+    "same bodies (compact case expanded by a PRNG; the simplest Hypothesis example, identical in every shard, is "
+    "skipped and the run seed is mixed into the drawn seed); cell huge/sptenmat: sparse tensors with modes longer than "
+    "2**40 / 2**53 / 2**60, more than 2**63 cells, subscripts at the ends of the modes and just above 2**53, judged "
+    "entry by entry with Python integers."
 )
 ASSUMPTIONS = [
     "den(object) is reconstructed from public attributes only (vf/ref.py); the expected array comes from the case",
@@ -62,6 +80,13 @@ ASSUMPTIONS = [
     "float32 dense data: conversions move data, so the denoted array is exactly the float32 values; no float32 for "
     "Kruskal / Tucker / sums (the rounding bounds are stated for float64)",
     "Kruskal factor matrices must be float64 (the constructor rejects anything else): no integer dtypes there",
+    "several live objects: the state of an object is read from its public attributes and compared exactly; edits use "
+    "the documented item assignments, and NumPy in-place assignment for plain arrays handed to the caller (double(), "
+    "find(), spmatrix(), factor matrices, weights); every default conversion documents a copy, copy=False forms are exempt",
+    "near-special factor matrices are not integer-valued: those cases are compared with the 64*n*eps*|.| bound, which a "
+    "perturbation of 1e-12 relative still exceeds for cores of up to ~64 cells",
+    "huge shapes: only shapes and splits whose row and column counts are below 2**63 (representable subscripts); "
+    "nothing is expanded; the smallest huge mode is 2**40 so that an accidental dense allocation fails at once",
 ]
 
 
@@ -544,13 +569,15 @@ def dense_to_sparse(ctx, case):
     _labels(ctx, case)
     _dense_labels(ctx, case, X)
     ctx.nt = _nt_array(A)
+    live = Live(ctx)  # every object obtained below stays alive and is judged again after the others were edited
+    live.keep("operand", X)
     # what the dense holder itself reports
     ctx.check(tup(X.shape) == A.shape and X.ndims == A.ndim, "tensor-shape")
     ctx.check(ref.same_exact(ref.den(X), A), "tensor-constructor-denotes", ref.diff_info(ref.den(X), A))
     n = int(np.count_nonzero(A))
     _stage(ctx, "tensor.nnz", lambda: X.nnz, lambda nz: ctx.check(nz == n, "tensor-nnz", f"{nz} vs {n}"))
-    _stage(ctx, "tensor.double", X.double, lambda a: _check_ndarray(ctx, a, A, "tensor.double"))
-    _stage(ctx, "tensor.full", X.full, lambda F: _check_tensor(ctx, F, A, "tensor.full"))
+    live.keep("tensor.double", _stage(ctx, "tensor.double", X.double, lambda a: _check_ndarray(ctx, a, A, "tensor.double")))
+    live.keep("tensor.full", _stage(ctx, "tensor.full", X.full, lambda F: _check_tensor(ctx, F, A, "tensor.full")))
 
     # find(): exactly the nonzeros, each with its value
     def chk_find(r):
@@ -565,18 +592,24 @@ def dense_to_sparse(ctx, case):
             want = {tuple(int(i) for i in r): float(A[tuple(r)]) for r in np.argwhere(A != 0)}
             ctx.check(len(got) == n and got == want, "find-lists-the-nonzeros")
 
-    _stage(ctx, "tensor.find", X.find, chk_find)
+    live.keep("tensor.find", _stage(ctx, "tensor.find", X.find, chk_find))
     # dense -> sparse
     S = _stage(ctx, "tensor.to_sptensor", X.to_sptensor, lambda S: _check_sptensor(ctx, S, A, "to_sptensor"))
+    live.keep("to_sptensor", S)
     if S is not None:
         # ... and back, three ways
-        _stage(ctx, "sptensor.full", S.full, lambda D: _check_tensor(ctx, D, A, "to_sptensor.full"))
-        _stage(ctx, "sptensor.to_tensor", S.to_tensor, lambda D: _check_tensor(ctx, D, A, "to_sptensor.to_tensor"))
-        _stage(ctx, "sptensor.double", S.double, lambda a: _check_ndarray(ctx, a, A, "to_sptensor.double"))
+        live.keep("to_sptensor.full",
+                  _stage(ctx, "sptensor.full", S.full, lambda D: _check_tensor(ctx, D, A, "to_sptensor.full")))
+        live.keep("to_sptensor.to_tensor", _stage(ctx, "sptensor.to_tensor", S.to_tensor,
+                                                  lambda D: _check_tensor(ctx, D, A, "to_sptensor.to_tensor")))
+        live.keep("to_sptensor.double", _stage(ctx, "sptensor.double", S.double,
+                                               lambda a: _check_ndarray(ctx, a, A, "to_sptensor.double")))
     # a second call on the same object gives the same tensor (the k-th call depends only on its arguments)
-    _stage(ctx, "tensor.to_sptensor-again", X.to_sptensor, lambda S: _check_sptensor(ctx, S, A, "to_sptensor-again"))
+    live.keep("to_sptensor-again", _stage(ctx, "tensor.to_sptensor-again", X.to_sptensor,
+                                          lambda S: _check_sptensor(ctx, S, A, "to_sptensor-again")))
     # the operand is untouched by the conversions
     ctx.check(ref.same_exact(ref.den(X), A), "operand-unchanged")
+    live.judge("later-conversions")
     # ... and after the object is edited in place through the public API, the same conversion gives the new tensor
     # (no result may be remembered from the earlier calls)
     if A.size and A.dtype != bool and case.get("dtype") != "bool":
@@ -588,9 +621,13 @@ def dense_to_sparse(ctx, case):
                 X[np.array([pos], dtype=int)] = float(A2[pos])
         except Abort:
             return
+        live.touched(X)
+        live.judge("edit-of-operand")  # what was converted before the edit is still what it was
         if ref.same_exact(ref.den(X), A2) and tup(X.shape) == A.shape:  # assignment itself is judged by C04
-            _stage(ctx, "tensor.to_sptensor-after-edit", X.to_sptensor,
-                   lambda S: _check_sptensor(ctx, S, A2, "to_sptensor-after-edit"))
+            live.keep("to_sptensor-after-edit", _stage(ctx, "tensor.to_sptensor-after-edit", X.to_sptensor,
+                                                      lambda S: _check_sptensor(ctx, S, A2, "to_sptensor-after-edit")))
+    # each object in turn is edited in place through the public interface: all the others stay what they were
+    ctx.label(f"live-edits-{min(live.edit_all(), 9)}")
 
 
 # --------------------------------------------------------------------------
@@ -612,11 +649,15 @@ def sparse_to_dense(ctx, case):
     stored = n + (len(case["zsubs"]) if ez else 0)
     _stage(ctx, "sptensor.nnz", lambda: S.nnz,
            lambda nz: ctx.check(nz == stored, "sptensor-nnz", f"{nz} vs {stored}"))
+    live = Live(ctx)
+    live.keep("operand", S)
     D1 = _stage(ctx, "sptensor.full", S.full, lambda D: _check_tensor(ctx, D, A, "full"))
-    _stage(ctx, "sptensor.to_tensor", S.to_tensor, lambda D: _check_tensor(ctx, D, A, "to_tensor"))
-    _stage(ctx, "sptensor.double", S.double, lambda a: _check_ndarray(ctx, a, A, "double"))
+    live.keep("full", D1)
+    live.keep("to_tensor", _stage(ctx, "sptensor.to_tensor", S.to_tensor, lambda D: _check_tensor(ctx, D, A, "to_tensor")))
+    live.keep("double", _stage(ctx, "sptensor.double", S.double, lambda a: _check_ndarray(ctx, a, A, "double")))
     if D1 is not None:
-        _stage(ctx, "tensor.to_sptensor", D1.to_sptensor, lambda S2: _check_sptensor(ctx, S2, A, "full.to_sptensor"))
+        live.keep("full.to_sptensor", _stage(ctx, "tensor.to_sptensor", D1.to_sptensor,
+                                             lambda S2: _check_sptensor(ctx, S2, A, "full.to_sptensor")))
     if len(case["shape"]) == 2:
 
         def chk_sp(m):
@@ -627,9 +668,10 @@ def sparse_to_dense(ctx, case):
             # scipy's nnz is by its own definition the number of *stored* entries
             ctx.check(int(m.nnz) == stored, "spmatrix-nnz", m.nnz)
 
-        _stage(ctx, "sptensor.spmatrix", S.spmatrix, chk_sp)
-    _stage(ctx, "sptensor.full-again", S.full, lambda D: _check_tensor(ctx, D, A, "full-again"))
+        live.keep("spmatrix", _stage(ctx, "sptensor.spmatrix", S.spmatrix, chk_sp))
+    live.keep("full-again", _stage(ctx, "sptensor.full-again", S.full, lambda D: _check_tensor(ctx, D, A, "full-again")))
     ctx.check(ref.same_exact(ref.den(S), A) and S.nnz == stored, "operand-unchanged")
+    live.judge("later-conversions")
     # edited in place through the public API, the same conversion gives the new tensor
     if A.size and not np.issubdtype(np.asarray(S.vals).dtype, np.unsignedinteger):
         pos = tuple(int(i) for i in np.unravel_index(case.get("prov_k", 0) % A.size, A.shape))
@@ -640,9 +682,97 @@ def sparse_to_dense(ctx, case):
                 S[np.array([pos], dtype=int)] = float(A2[pos])
         except Abort:
             return
+        live.touched(S)
+        live.judge("edit-of-operand")
         if tup(S.shape) == A.shape and not ref.sptensor_problems(S, allow_explicit_zero=True) and ref.same_exact(
                 ref.den(S), A2):  # assignment itself is judged by C04
-            _stage(ctx, "sptensor.full-after-edit", S.full, lambda D: _check_tensor(ctx, D, A2, "full-after-edit"))
+            live.keep("full-after-edit", _stage(ctx, "sptensor.full-after-edit", S.full,
+                                                lambda D: _check_tensor(ctx, D, A2, "full-after-edit")))
+    ctx.label(f"live-edits-{min(live.edit_all(), 9)}")
+
+
+# --------------------------------------------------------------------------
+# round 3: structured values - exactly special, epsilon-perturbed special, generic
+# --------------------------------------------------------------------------
+
+SPECIAL_KINDS = ["identity", "identity", "permutation", "diagonal", "orthonormal", "unit-columns", "ones", "zero",
+                 "generic"]
+PERTURB = ["exact", "exact", "eps-diag", "eps-offdiag", "eps-all"]
+
+
+@st.composite
+def special_matrix(draw, s, c):
+    """An s x c matrix of a special structure (identity / permutation / diagonal / orthonormal columns and rows /
+    unit-norm but not orthogonal columns / all ones / zero; rectangular ones are the leading block of the square
+    structure) - exactly, or perturbed by relative 1e-12..1e-5 (on its nonzeros: eps-diag; on its zeros: eps-offdiag;
+    everywhere: eps-all) - or a generic matrix.  dict(rows, kind, pert)."""
+    kind = draw(st.sampled_from(SPECIAL_KINDS))
+    r = min(s, c)
+    M = np.zeros((s, c))
+    if kind == "identity":
+        M[range(r), range(r)] = 1.0
+    elif kind == "permutation":
+        p_, q_ = draw(st.permutations(range(s))), draw(st.permutations(range(c)))
+        for i in range(r):
+            M[p_[i], q_[i]] = 1.0
+    elif kind == "diagonal":
+        d = draw(st.lists(gen.NZ_GEN_VALUES, min_size=r, max_size=r))
+        M[range(r), range(r)] = d
+    elif kind == "orthonormal":
+        n = max(s, c)
+        Q = np.eye(n)
+        if n >= 2:
+            for _ in range(draw(st.integers(1, 3))):
+                i = draw(st.integers(0, n - 1))
+                j = (i + draw(st.integers(1, n - 1))) % n
+                th = draw(st.floats(-3.0, 3.0, allow_nan=False, width=64))
+                G = np.eye(n)
+                G[i, i] = G[j, j] = np.cos(th)
+                G[i, j], G[j, i] = -np.sin(th), np.sin(th)
+                Q = Q @ G
+        if draw(st.booleans()):
+            Q[:, 0] = -Q[:, 0]
+        M = Q[:s, :c].copy()
+    elif kind == "unit-columns":
+        G = np.array(draw(st.lists(st.lists(gen.NZ_GEN_VALUES, min_size=c, max_size=c), min_size=s, max_size=s)))
+        M = G / np.sqrt((G * G).sum(axis=0, keepdims=True))
+    elif kind == "ones":
+        M[:] = 1.0
+    elif kind == "generic":
+        M = np.array(draw(st.lists(st.lists(gen.values("float"), min_size=c, max_size=c), min_size=s, max_size=s)),
+                     dtype=float).reshape(s, c)
+    pert = draw(st.sampled_from(PERTURB)) if kind != "generic" else "exact"
+    if pert != "exact":
+        e = draw(st.integers(5, 12))
+        m = draw(st.lists(st.sampled_from([-3.0, -1.0, 1.0, 2.0]), min_size=s * c, max_size=s * c))
+        E = (10.0 ** -e) * np.array(m).reshape(s, c)
+        if pert == "eps-diag":
+            M = M * (1.0 + E)
+        elif pert == "eps-offdiag":
+            M = M + E * (M == 0)
+        else:
+            M = M + E
+    return dict(rows=[[float(v) for v in row] for row in M], kind=kind, pert=pert)
+
+
+@st.composite
+def special_weights(draw, r):
+    """Kruskal weights: all exactly one / within 1e-12..1e-5 of one / generic / of magnitude 1e-9..1e-12 / zero in
+    places; (kind, list)"""
+    kind = draw(st.sampled_from(["ones", "near-one", "near-one", "generic", "tiny", "some-zero"]))
+    if kind == "ones":
+        return kind, [1.0] * r
+    if kind == "near-one":
+        e = draw(st.integers(5, 12))
+        m = draw(st.lists(st.sampled_from([-3.0, -1.0, 0.0, 1.0, 2.0]), min_size=r, max_size=r))
+        return kind, [1.0 + v * 10.0 ** -e for v in m]
+    w = draw(st.lists(gen.NZ_GEN_VALUES, min_size=r, max_size=r))
+    if kind == "tiny":
+        e = draw(st.integers(9, 12))
+        w = [v * 10.0 ** -e for v in w]
+    elif kind == "some-zero":
+        w[draw(st.integers(0, r - 1))] = 0.0
+    return kind, w
 
 
 # --------------------------------------------------------------------------
@@ -653,7 +783,7 @@ def sparse_to_dense(ctx, case):
 KT_PROVS = ["ctor", "ctor", "redistribute", "arrange-perm", "fixsigns", "extract", "negneg", "normalize",
             "normalize-mode", "normalize-all"]
 KT_EXACT = {"ctor", "redistribute", "arrange-perm", "fixsigns", "extract", "negneg"}  # no rounding for integer data
-SCALES = [1.0, 1.0, 1e-6, 1e6]
+SCALES = [1.0, 1.0, 1e-6, 1e6, 1e-12]
 
 
 @st.composite
@@ -672,7 +802,8 @@ def _kt_weights(case):
 
 
 def _kt_exact(case):
-    return case["vkind"] == "int" and case.get("wscale", 1.0) >= 1.0 and case.get("kprov", "ctor") in KT_EXACT
+    return (case["vkind"] == "int" and case.get("wscale", 1.0) >= 1.0 and case.get("kprov", "ctor") in KT_EXACT
+            and not case.get("special"))
 
 
 def _kt_ref(case):
@@ -753,12 +884,60 @@ def ktensor_full(ctx, case):
     ctx.nt = _nt_array(A)
     cmp = _cmp_sum(A, B, case["rank"], _kt_exact(case))
     ctx.check(tup(K.shape) == A.shape and K.ndims == A.ndim, "ktensor-shape", K.shape)
-    _stage(ctx, "ktensor.full", K.full, lambda D: _check_tensor(ctx, D, A, "full", cmp))
-    _stage(ctx, "ktensor.to_tensor", K.to_tensor, lambda D: _check_tensor(ctx, D, A, "to_tensor", cmp))
-    _stage(ctx, "ktensor.double", K.double, lambda a: _check_ndarray(ctx, a, A, "double", cmp))
+    live = Live(ctx)
+    live.keep("operand", K)
+    live.keep("full", _stage(ctx, "ktensor.full", K.full, lambda D: _check_tensor(ctx, D, A, "full", cmp)))
+    live.keep("to_tensor", _stage(ctx, "ktensor.to_tensor", K.to_tensor, lambda D: _check_tensor(ctx, D, A, "to_tensor", cmp)))
+    live.keep("double", _stage(ctx, "ktensor.double", K.double, lambda a: _check_ndarray(ctx, a, A, "double", cmp)))
     # the k-th conversion depends only on the object: a second call gives the same tensor
-    _stage(ctx, "ktensor.full-again", K.full, lambda D: _check_tensor(ctx, D, A, "full-again", cmp))
+    live.keep("full-again", _stage(ctx, "ktensor.full-again", K.full, lambda D: _check_tensor(ctx, D, A, "full-again", cmp)))
     ctx.check(_kt_unchanged(K, snap), "operand-unchanged")
+    live.judge("later-conversions")
+    # the results are edited in place one after the other: the Kruskal tensor and the other results stay what they
+    # were, and the same conversion still gives the tensor; then the Kruskal tensor's own arrays are edited
+    live.edit_all(only=("full", "to_tensor", "double", "full-again"))
+    _stage(ctx, "ktensor.full-after-result-edits", K.full, lambda D: _check_tensor(ctx, D, A, "full-after-result-edits", cmp))
+    live.edit_all(only=("operand",))
+
+
+@st.composite
+def _kt_special_case(draw, tier, max_order=None):
+    """Kruskal tensor whose factor matrices and weights are special / nearly special (class: tolerance-based
+    shortcuts), or badly balanced: a column of norm ~1e-18 carried by a weight ~1e+18 (and the other way round)"""
+    shape = draw(gen.shapes(tier, min_order=1, max_order=max_order or (4 if tier == "quick" else 5)))
+    r = draw(st.integers(1, 4))
+    fs = [draw(special_matrix(n, r)) for n in shape]
+    wkind, w = draw(special_weights(r))
+    factors = [f["rows"] for f in fs]
+    balance = draw(st.sampled_from(["none", "none", "weight-huge", "weight-tiny"]))
+    if balance != "none":
+        j, k = draw(st.integers(0, r - 1)), draw(st.integers(0, len(shape) - 1))
+        big = 1e18 if balance == "weight-huge" else 1e-18
+        w = list(w)
+        w[j] = w[j] * big
+        factors[k] = [[v / big if jj == j else v for jj, v in enumerate(row)] for row in factors[k]]
+    return dict(shape=list(shape), rank=r, weights=[float(v) for v in w], factors=factors, vkind="float", special=True,
+                fkinds=[f["kind"] + "/" + f["pert"] for f in fs], wkind=wkind, balance=balance,
+                kprov=draw(st.sampled_from(KT_PROVS)), prov_k=draw(st.integers(0, 10**4)),
+                wscale=draw(st.sampled_from([1.0, 1.0, 1.0, 1e-6, 1e6, 1e-12])))
+
+
+def _special_labels(ctx, case):
+    for fk in case.get("fkinds", []):
+        ctx.label("factor-" + fk.split("/")[0], "factor-" + fk.split("/")[1])
+    if "wkind" in case:
+        ctx.label("weights-" + case["wkind"], "balance-" + case.get("balance", "none"))
+    if "ckind" in case:
+        ctx.label("core-kind-" + case["ckind"])
+    sq = [len(f) == len(f[0]) for f in case["factors"] if f and f[0]]
+    ctx.label("all-factors-square" if sq and all(sq) else ("some-factor-square" if any(sq) else "no-factor-square"))
+
+
+@cell("C01/ktensor/special", strategy=_kt_special_case, quick=250, thorough=5000)
+def ktensor_special(ctx, case):
+    """ktensor_full on factor matrices / weights that are exactly special, epsilon-perturbed special, badly balanced"""
+    _special_labels(ctx, case)
+    ktensor_full(ctx, case)
 
 
 # --------------------------------------------------------------------------
@@ -771,7 +950,7 @@ def _tt_core(case):
 
 
 def _tt_exact(case):
-    return case["vkind"] == "int" and case.get("cscale", 1.0) >= 1.0
+    return case["vkind"] == "int" and case.get("cscale", 1.0) >= 1.0 and not case.get("special")
 
 
 def _tt_ref(case):
@@ -836,12 +1015,71 @@ def ttensor_full(ctx, case):
     ctx.label(f"cscale-{case.get('cscale', 1.0):g}")
     cmp = _cmp_sum(A, B, ref.prod(case["cshape"]), _tt_exact(case))
     ctx.check(tup(T.shape) == A.shape and T.ndims == A.ndim, "ttensor-shape", T.shape)
-    _stage(ctx, "ttensor.full", T.full, lambda D: _check_tensor(ctx, D, A, "full", cmp))
-    _stage(ctx, "ttensor.to_tensor", T.to_tensor, lambda D: _check_tensor(ctx, D, A, "to_tensor", cmp))
-    _stage(ctx, "ttensor.double", T.double, lambda a: _check_ndarray(ctx, a, A, "double", cmp))
-    _stage(ctx, "ttensor.reconstruct", T.reconstruct, lambda D: _check_tensor(ctx, D, A, "reconstruct", cmp))
-    _stage(ctx, "ttensor.full-again", T.full, lambda D: _check_tensor(ctx, D, A, "full-again", cmp))
+    live = Live(ctx)
+    live.keep("operand", T)
+    live.keep("full", _stage(ctx, "ttensor.full", T.full, lambda D: _check_tensor(ctx, D, A, "full", cmp)))
+    live.keep("to_tensor", _stage(ctx, "ttensor.to_tensor", T.to_tensor, lambda D: _check_tensor(ctx, D, A, "to_tensor", cmp)))
+    live.keep("double", _stage(ctx, "ttensor.double", T.double, lambda a: _check_ndarray(ctx, a, A, "double", cmp)))
+    live.keep("reconstruct", _stage(ctx, "ttensor.reconstruct", T.reconstruct,
+                                    lambda D: _check_tensor(ctx, D, A, "reconstruct", cmp)))
+    live.keep("full-again", _stage(ctx, "ttensor.full-again", T.full, lambda D: _check_tensor(ctx, D, A, "full-again", cmp)))
     ctx.check(ref.same_exact(ref.den(T.core), _tt_core(case)), "operand-unchanged")
+    live.judge("later-conversions")
+    # results edited in place (a result may not be the core or a view of it, whatever the factors are), the same
+    # conversion once more, then the Tucker tensor's own core and factors edited
+    live.edit_all(only=("full", "to_tensor", "double", "reconstruct", "full-again"))
+    _stage(ctx, "ttensor.full-after-result-edits", T.full, lambda D: _check_tensor(ctx, D, A, "full-after-result-edits", cmp))
+    live.edit_all(only=("operand",))
+
+
+@st.composite
+def _special_core(draw, cshape):
+    """(kind, flat F-order list): generic pattern / superdiagonal (the identity tensor) / all ones / zero but one, each
+    exactly or with every entry moved by 1e-12..1e-5"""
+    n = ref.prod(cshape)
+    kind = draw(st.sampled_from(["generic", "generic", "superdiagonal", "ones", "single"]))
+    if kind == "generic":
+        return kind, _pattern(draw, n, draw(st.sampled_from(["one", "some", "all", "all"])), draw(
+            st.sampled_from(["int", "float"])))
+    C = np.zeros(tuple(cshape))
+    if kind == "superdiagonal":
+        for i in range(min(cshape)):
+            C[(i,) * len(cshape)] = 1.0
+    elif kind == "ones":
+        C[...] = 1.0
+    else:
+        C[tuple(draw(st.integers(0, c - 1)) for c in cshape)] = draw(gen.NZ_GEN_VALUES)
+    if draw(st.booleans()):
+        e = draw(st.integers(5, 12))
+        m = draw(st.lists(st.sampled_from([-3.0, -1.0, 1.0, 2.0]), min_size=n, max_size=n))
+        C = C + (10.0 ** -e) * np.array(m).reshape(tuple(cshape), order="F")
+        kind += "+eps"
+    return kind, [float(v) for v in np.ravel(C, order="F")]
+
+
+@st.composite
+def _ttensor_special_case(draw, tier):
+    """Tucker tensor whose factor matrices (square half of the time: an uncompressed mode) and core are exactly
+    special, epsilon-perturbed special or generic"""
+    shape = draw(gen.shapes(tier, min_order=1, max_order=3 if tier == "quick" else 4))
+    cshape = [s if draw(st.booleans()) else draw(st.integers(1, 3)) for s in shape]
+    ckind, core = draw(_special_core(cshape))
+    fs = [draw(special_matrix(s, c)) for s, c in zip(shape, cshape)]
+    c = dict(shape=list(shape), cshape=cshape, core=core, factors=[f["rows"] for f in fs], vkind="float", special=True,
+             sparse_core=draw(st.booleans()), fkinds=[f["kind"] + "/" + f["pert"] for f in fs], ckind=ckind,
+             cscale=draw(st.sampled_from([1.0, 1.0, 1.0, 1e-6, 1e6, 1e-12])), core_prov="ctor",
+             prov_k=draw(st.integers(0, 10**4)), sparse_factors=False)
+    if c["sparse_core"]:
+        nnz = sum(1 for v in core if v != 0)
+        c["core_perm"] = list(draw(st.permutations(range(nnz)))) if nnz > 1 else list(range(nnz))
+    return c
+
+
+@cell("C01/ttensor/special", strategy=_ttensor_special_case, quick=300, thorough=6000)
+def ttensor_special(ctx, case):
+    """ttensor_full on factor matrices / cores that are exactly special, epsilon-perturbed special, generic"""
+    _special_labels(ctx, case)
+    ttensor_full(ctx, case)
 
 
 # --------------------------------------------------------------------------
@@ -890,6 +1128,11 @@ def _sum_case(draw, tier):
             p = draw(_kt_part(tier, shape, vkind))
         else:
             p = draw(_tt_part(tier, shape, vkind))
+            if draw(st.integers(0, 3)) == 0:  # factor matrices exactly / nearly special (square: uncompressed modes)
+                p["cshape"] = [s if draw(st.booleans()) else c for s, c in zip(shape, p["cshape"])]
+                p["core"] = _pattern(draw, ref.prod(p["cshape"]), "all", vkind)
+                fs = [draw(special_matrix(s, c)) for s, c in zip(shape, p["cshape"])]
+                p["factors"], p["special"] = [f["rows"] for f in fs], True
         parts.append(p)
     # a part may be followed by its own negation (exact cancellation: the sum has fewer nonzeros than its parts)
     cancel = draw(st.integers(0, 3)) == 0
@@ -952,7 +1195,8 @@ def _build_part(p):
 
 def _sum_exact(case):
     return case["vkind"] == "int" and case.get("scale", 1.0) >= 1.0 and all(
-        p.get("kprov", "ctor") in KT_EXACT for p in case["parts"] if p["holder"] == "ktensor")
+        p.get("kprov", "ctor") in KT_EXACT for p in case["parts"] if p["holder"] == "ktensor") and not any(
+        p.get("special") for p in case["parts"])
 
 
 @cell("C01/sumtensor/full", strategy=_sum_case, quick=400, thorough=8000)
@@ -983,13 +1227,21 @@ def sumtensor_full(ctx, case):
             Sm = ttb.sumtensor([b[0] for b in built])
     ctx.require(isinstance(Sm, ttb.sumtensor), "sumtensor-built")
     ctx.check(tup(Sm.shape) == A.shape and Sm.ndims == A.ndim, "sumtensor-shape", Sm.shape)
-    _stage(ctx, "sumtensor.full", Sm.full, lambda D: _check_tensor(ctx, D, A, "full", cmp))
-    _stage(ctx, "sumtensor.to_tensor", Sm.to_tensor, lambda D: _check_tensor(ctx, D, A, "to_tensor", cmp))
-    _stage(ctx, "sumtensor.double", Sm.double, lambda a: _check_ndarray(ctx, a, A, "double", cmp))
-    _stage(ctx, "sumtensor.full-again", Sm.full, lambda D: _check_tensor(ctx, D, A, "full-again", cmp))
+    live = Live(ctx)
+    live.keep("operand", Sm)
+    for i, b in enumerate(built):  # the objects the sum was built from stay alive too
+        live.keep(f"part{i}-as-given", b[0])
+    live.keep("full", _stage(ctx, "sumtensor.full", Sm.full, lambda D: _check_tensor(ctx, D, A, "full", cmp)))
+    live.keep("to_tensor", _stage(ctx, "sumtensor.to_tensor", Sm.to_tensor, lambda D: _check_tensor(ctx, D, A, "to_tensor", cmp)))
+    live.keep("double", _stage(ctx, "sumtensor.double", Sm.double, lambda a: _check_ndarray(ctx, a, A, "double", cmp)))
+    live.keep("full-again", _stage(ctx, "sumtensor.full-again", Sm.full, lambda D: _check_tensor(ctx, D, A, "full-again", cmp)))
     # converting must not change the parts
     ok = all(ref.same_bound(ref.den(p), b[1], b[2] + 1.0, b[3]) for p, b in zip(Sm.parts, built))
     ctx.check(ok, "parts-unchanged")
+    live.judge("later-conversions")
+    live.edit_all(only=("full", "to_tensor", "double", "full-again"))
+    _stage(ctx, "sumtensor.full-after-result-edits", Sm.full, lambda D: _check_tensor(ctx, D, A, "full-after-result-edits", cmp))
+    live.edit_all(only=("operand",) + tuple(f"part{i}-as-given" for i in range(len(built))))
 
 
 # --------------------------------------------------------------------------
@@ -1114,20 +1366,38 @@ def _tenmat_body(ctx, case):
     with ctx.sut("tensor.to_tenmat"):
         M = X.to_tenmat(copy=case.get("copy", True), **kw)
     E = _check_tenmat(ctx, M, A, rd, cd, "to_tenmat")
-    _stage(ctx, "tenmat.double", M.double, lambda a: _check_ndarray(ctx, a, E, "tenmat.double"))
-    _stage(ctx, "tenmat.to_tensor", M.to_tensor, lambda D: _check_tensor(ctx, D, A, "tenmat.to_tensor"))
+    # the tensor and everything converted from it stay alive; with copy=False the tensor and its matricized form are
+    # allowed to share their data (one group), with the default they are not
+    live = Live(ctx)
+    grp = None if case.get("copy", True) else "nocopy"
+    live.keep("operand", X, grp)
+    live.keep("to_tenmat", M, grp)
+    live.keep("tenmat.double", _stage(ctx, "tenmat.double", M.double, lambda a: _check_ndarray(ctx, a, E, "tenmat.double")))
+    live.keep("tenmat.to_tensor", _stage(ctx, "tenmat.to_tensor", M.to_tensor,
+                                         lambda D: _check_tensor(ctx, D, A, "tenmat.to_tensor")))
     Mt = _stage(ctx, "tenmat.ctranspose", M.ctranspose, lambda Mt: _check_tenmat(ctx, Mt, A, cd, rd, "ctranspose"))
+    live.keep("ctranspose", Mt)
     if Mt is not None:
-        _stage(ctx, "tenmat.ctranspose.to_tensor", Mt.to_tensor,
-               lambda D: _check_tensor(ctx, D, A, "ctranspose.to_tensor"))
-    _stage(ctx, "tenmat.copy", M.copy, lambda Mc: _check_tenmat(ctx, Mc, A, rd, cd, "tenmat.copy"))
+        live.keep("ctranspose.to_tensor", _stage(ctx, "tenmat.ctranspose.to_tensor", Mt.to_tensor,
+                                                 lambda D: _check_tensor(ctx, D, A, "ctranspose.to_tensor")))
+    live.keep("tenmat.copy", _stage(ctx, "tenmat.copy", M.copy, lambda Mc: _check_tenmat(ctx, Mc, A, rd, cd, "tenmat.copy")))
     if case.get("copy", True):
-        _stage(ctx, "tensor.to_tenmat-again", lambda: X.to_tenmat(**kw),
-               lambda M2: _check_tenmat(ctx, M2, A, rd, cd, "to_tenmat-again"))
-    # last: the no-copy form may share memory with M, so nothing is read from M afterwards
+        live.keep("to_tenmat-again", _stage(ctx, "tensor.to_tenmat-again", lambda: X.to_tenmat(**kw),
+                                            lambda M2: _check_tenmat(ctx, M2, A, rd, cd, "to_tenmat-again")))
+    # the no-copy form may share memory with M: it is not kept (and not read again)
     _stage(ctx, "tenmat.to_tensor-nocopy", lambda: M.to_tensor(copy=False),
            lambda D: _check_tensor(ctx, D, A, "tenmat.to_tensor-nocopy"))
     ctx.check(ref.same_exact(ref.den(X), A), "operand-unchanged")
+    live.judge("later-conversions")
+    # every kept object in turn is edited in place (T[...] = B, M[:, :] = B, a[...] = B): all the others stay what
+    # they were; then the conversions are asked for once more from the edited tenmat
+    ctx.label(f"live-edits-{min(live.edit_all(), 9)}")
+    if isinstance(M.data, np.ndarray) and M.data.shape == E.shape:
+        E2 = np.asarray(M.data, dtype=float).copy()
+        A2 = ref.unmatricize(E2, rd, cd, A.shape)
+        _stage(ctx, "tenmat.to_tensor-after-edits", M.to_tensor,
+               lambda D: _check_tensor(ctx, D, A2, "tenmat.to_tensor-after-edits"))
+        _stage(ctx, "tenmat.double-after-edits", M.double, lambda a: _check_ndarray(ctx, a, E2, "tenmat.double-after-edits"))
 
 
 @cell("C01/tenmat/tensor", strategy=_tenmat_case, quick=600, thorough=12000)
@@ -1215,12 +1485,20 @@ def tenmat_constructor(ctx, case):
     with ctx.sut("tenmat()"):
         M = ttb.tenmat(data, tshape=tuple(case["shape"]), copy=case["copy"], **kw)
     _check_tenmat(ctx, M, A, rd, cd, "tenmat()")
-    _stage(ctx, "tenmat.to_tensor", M.to_tensor, lambda D: _check_tensor(ctx, D, A, "tenmat().to_tensor"))
+    live = Live(ctx)
+    grp = None if case["copy"] else "nocopy"
+    live.keep("array-as-given", data, grp)
+    live.keep("tenmat()", M, grp)
+    live.keep("tenmat().to_tensor", _stage(ctx, "tenmat.to_tensor", M.to_tensor,
+                                           lambda D: _check_tensor(ctx, D, A, "tenmat().to_tensor")))
+    live.keep("tenmat().double", _stage(ctx, "tenmat.double", M.double, lambda a: _check_ndarray(ctx, a, E, "tenmat().double")))
+    live.judge("later-conversions")
+    live.edit_all()
 
 
 @st.composite
 def _kt_tenmat_case(draw, tier):
-    c = draw(kt_case(tier, min_order=1))
+    c = draw(kt_case(tier, min_order=1)) if draw(st.integers(0, 3)) else draw(_kt_special_case(tier))
     c["split"] = draw(split_spec(len(c["shape"])))
     return c
 
@@ -1244,8 +1522,14 @@ def tenmat_ktensor(ctx, case):
     with ctx.sut("ktensor.to_tenmat"):
         M = K.to_tenmat(**split_kwargs(spec))
     _check_tenmat(ctx, M, A, rd, cd, "to_tenmat", cmp)
-    _stage(ctx, "tenmat.to_tensor", M.to_tensor,
-           lambda D: _check_tensor(ctx, D, A, "tenmat.to_tensor", _cmp_sum(A, B, case["rank"], exact)))
+    live = Live(ctx)
+    live.keep("operand", K)
+    live.keep("to_tenmat", M)
+    live.keep("tenmat.to_tensor", _stage(
+        ctx, "tenmat.to_tensor", M.to_tensor,
+        lambda D: _check_tensor(ctx, D, A, "tenmat.to_tensor", _cmp_sum(A, B, case["rank"], exact))))
+    live.judge("later-conversions")
+    live.edit_all()
 
 
 # --------------------------------------------------------------------------
@@ -1275,7 +1559,7 @@ def _check_sptenmat(ctx, M, A, rd, cd, what):
     return E
 
 
-def _sptenmat_conversions(ctx, M, A, E, rd, cd, what):
+def _sptenmat_conversions(ctx, M, A, E, rd, cd, what, live=None):
     """sptenmat -> scipy sparse / dense tenmat / sptensor"""
 
     def chk_scipy(m):
@@ -1286,9 +1570,11 @@ def _sptenmat_conversions(ctx, M, A, E, rd, cd, what):
             ctx.check(ref.same_exact(np.asarray(m.toarray()), E), f"{what}.double-denotes")
         ctx.check(int(m.nnz) == int(np.count_nonzero(E)), f"{what}.double-nnz", m.nnz)
 
-    _stage(ctx, "sptenmat.double", M.double, chk_scipy)
-    _stage(ctx, "sptenmat.full", M.full, lambda Fm: _check_tenmat(ctx, Fm, A, rd, cd, f"{what}.full"))
-    _stage(ctx, "sptenmat.to_sptensor", M.to_sptensor, lambda S2: _check_sptensor(ctx, S2, A, f"{what}.to_sptensor"))
+    live = live or Live(ctx)
+    live.keep(f"{what}.double", _stage(ctx, "sptenmat.double", M.double, chk_scipy))
+    live.keep(f"{what}.full", _stage(ctx, "sptenmat.full", M.full, lambda Fm: _check_tenmat(ctx, Fm, A, rd, cd, f"{what}.full")))
+    live.keep(f"{what}.to_sptensor", _stage(ctx, "sptenmat.to_sptensor", M.to_sptensor,
+                                            lambda S2: _check_sptensor(ctx, S2, A, f"{what}.to_sptensor")))
 
 
 @st.composite
@@ -1312,11 +1598,16 @@ def _sptenmat_body(ctx, case):
     with ctx.sut("sptensor.to_sptenmat"):
         M = S.to_sptenmat(**split_kwargs(spec))
     E = _check_sptenmat(ctx, M, A, rd, cd, "to_sptenmat")
-    _sptenmat_conversions(ctx, M, A, E, rd, cd, "sptenmat")
-    _stage(ctx, "sptenmat.copy", M.copy, lambda Mc: _check_sptenmat(ctx, Mc, A, rd, cd, "sptenmat.copy"))
-    _stage(ctx, "sptensor.to_sptenmat-again", lambda: S.to_sptenmat(**split_kwargs(spec)),
-           lambda M2: _check_sptenmat(ctx, M2, A, rd, cd, "to_sptenmat-again"))
+    live = Live(ctx)
+    live.keep("operand", S)
+    live.keep("to_sptenmat", M)
+    _sptenmat_conversions(ctx, M, A, E, rd, cd, "sptenmat", live)
+    live.keep("sptenmat.copy", _stage(ctx, "sptenmat.copy", M.copy, lambda Mc: _check_sptenmat(ctx, Mc, A, rd, cd, "sptenmat.copy")))
+    live.keep("to_sptenmat-again", _stage(ctx, "sptensor.to_sptenmat-again", lambda: S.to_sptenmat(**split_kwargs(spec)),
+                                          lambda M2: _check_sptenmat(ctx, M2, A, rd, cd, "to_sptenmat-again")))
     ctx.check(ref.same_exact(ref.den(S), A) and S.nnz == stored, "operand-unchanged")
+    live.judge("later-conversions")
+    ctx.label(f"live-edits-{min(live.edit_all(), 9)}")
 
 
 @cell("C01/sptenmat/sptensor", strategy=_sptenmat_case, quick=600, thorough=12000)
@@ -1365,10 +1656,11 @@ def sptenmat_constructor(ctx, case):
     kw = split_kwargs(spec)
     ts = tuple(case["shape"])
     src = case["source"]
+    given = []
     with ctx.sut(f"sptenmat-from-{src}"):
         if src == "subs-nocopy" and rows:
-            M = ttb.sptenmat(np.array([rows, cols], dtype=int).T.copy(), vals.astype(vdt).reshape(-1, 1), tshape=ts,
-                             copy=False, **kw)
+            given = [np.array([rows, cols], dtype=int).T.copy(), vals.astype(vdt).reshape(-1, 1)]
+            M = ttb.sptenmat(given[0], given[1], tshape=ts, copy=False, **kw)
         elif src in ("subs", "subs-zero", "subs-nocopy"):
             r_, c_, v_ = list(rows), list(cols), [float(v) for v in vals]
             zs = np.argwhere(E == 0)
@@ -1378,12 +1670,13 @@ def sptenmat_constructor(ctx, case):
                 pos = case["prov_k"] % (len(v_) + 1)
                 r_.insert(pos, int(z[0])), c_.insert(pos, int(z[1])), v_.insert(pos, 0.0)
             if r_:
-                M = ttb.sptenmat(np.array([r_, c_], dtype=int).T.copy(), np.array(v_).astype(vdt).reshape(-1, 1),
-                                 tshape=ts, **kw)
+                given = [np.array([r_, c_], dtype=int).T.copy(), np.array(v_).astype(vdt).reshape(-1, 1)]
+                M = ttb.sptenmat(given[0], given[1], tshape=ts, **kw)
             else:
                 M = ttb.sptenmat(tshape=ts, **kw)
         elif src == "dense":
-            M = ttb.sptenmat.from_array(E.astype(vdt), tshape=ts, **kw)
+            given = [E.astype(vdt)]
+            M = ttb.sptenmat.from_array(given[0], tshape=ts, **kw)
         else:
             r_, c_, v_ = list(rows), list(cols), [float(v) for v in vals]
             if src == "coo-dups" and v_:
@@ -1404,9 +1697,224 @@ def sptenmat_constructor(ctx, case):
             coo = sparse.coo_matrix((np.array(v_, dtype=float).astype(vdt), (np.array(r_, dtype=int),
                                                                               np.array(c_, dtype=int))), shape=E.shape)
             m = coo.tocsr() if src == "csr" else (coo.tocsc() if src == "csc" else coo)
+            given = [m]
             M = ttb.sptenmat.from_array(m, tshape=ts, **kw)
     _check_sptenmat(ctx, M, A, rd, cd, "sptenmat()")
-    _sptenmat_conversions(ctx, M, A, E, rd, cd, "sptenmat()")
+    live = Live(ctx)
+    live.keep("sptenmat()", M, "nocopy" if src == "subs-nocopy" else None)
+    for i, g in enumerate(given):  # the arrays / matrix the object was built from stay alive too
+        live.keep(f"given{i}", g, "nocopy" if src == "subs-nocopy" else None)
+    _sptenmat_conversions(ctx, M, A, E, rd, cd, "sptenmat()", live)
+    live.judge("later-conversions")
+    live.edit_all()
+
+
+# --------------------------------------------------------------------------
+# round 3: sizes above internal thresholds.  (1) a few large holders per run - dense tensors of ~27000 cells, sparse
+# tensors with 1e4..5e4 stored nonzeros - through the same bodies as the small ones (the case is stored in compact
+# form and expanded by a PRNG: Hypothesis cannot draw that much data); (2) sparse tensors whose modes are longer
+# than 2**40, 2**53 (indices that pass through float64 lose their last bits) and whose cell count exceeds 2**63 (key
+# arithmetic in int64 overflows), converted to sparse-matricized form and back, judged entry by entry with Python
+# integers.
+# --------------------------------------------------------------------------
+
+LARGE_DENSE_SHAPES = [[30, 30, 30], [20, 25, 6, 9], [150, 180], [27000], [30, 1, 30, 30]]
+LARGE_SPARSE_SHAPES = [[40, 40, 40], [30, 50, 35], [250, 300], [25, 20, 10, 12], [60000], [40, 1, 40, 40]]
+_LARGE = {}
+
+
+def _large_case(kind):
+    """strategy of compact cases dict(big=dict(seed, kind, simplest), shape, split, copy)"""
+    from ._live import run_salt
+
+    @st.composite
+    def strat(draw, tier):
+        raw = draw(st.integers(0, 2**32 - 1))
+        shapes = LARGE_DENSE_SHAPES if kind == "dense" else LARGE_SPARSE_SHAPES
+        shape = shapes[draw(st.integers(0, len(shapes) - 1))]
+        return dict(big=dict(seed=(raw ^ run_salt()) & 0xFFFFFFFF, kind=kind, simplest=raw == 0), shape=list(shape),
+                    split=draw(split_spec(len(shape))), copy=draw(st.booleans()))
+
+    return strat
+
+
+def _expand_large(case):
+    key = json.dumps(case, sort_keys=True)
+    if key in _LARGE:
+        return _LARGE[key]
+    rs = np.random.RandomState(case["big"]["seed"])
+    shape = case["shape"]
+    n = ref.prod(shape)
+    vkind = ["int", "float"][rs.randint(2)]
+    if case["big"]["kind"] == "dense":
+        data = np.round(rs.uniform(-6, 6, size=n)) if vkind == "int" else rs.uniform(-3, 3, size=n)
+        data[rs.uniform(size=n) < [0.0, 0.3, 0.9][rs.randint(3)]] = 0.0
+        out = dict(holder="tensor", shape=shape, data=[float(v) for v in data], vkind=vkind, pattern="some",
+                   dtype=["float64", "float64", "int64" if vkind == "int" else "float32"][rs.randint(3)],
+                   layout=["F", "C", "flat"][rs.randint(3)], prov="ctor", prov_k=int(rs.randint(10**4)))
+    else:
+        lo, hi = [(10001, 12000), (16385, 20000), (20001, 50000)][rs.randint(3)]
+        nnz = min(int(rs.randint(lo, hi + 1)), int(0.8 * n))
+        keys = np.sort(rs.choice(n, size=nnz, replace=False))
+        subs = np.array(np.unravel_index(keys, tuple(shape), order="F")).T
+        vals = rs.choice([-3.0, -2.0, -1.0, 1.0, 2.0, 3.0], size=nnz) if vkind == "int" else rs.uniform(0.5, 3, size=nnz)
+        order = ["sorted", "reverse", "random"][rs.randint(3)]
+        idx = np.arange(nnz) if order == "sorted" else (np.arange(nnz)[::-1] if order == "reverse" else rs.permutation(nnz))
+        out = dict(holder="sptensor", shape=shape, subs=subs[idx].tolist(), vals=[float(v) for v in vals[idx]],
+                   vkind=vkind, pattern="some", order=order, dtype=["float64", "int64" if vkind == "int" else "float64"][
+                       rs.randint(2)], prov="ctor", prov_k=int(rs.randint(10**4)), shapekind=SHAPE_KINDS[rs.randint(
+                           len(SHAPE_KINDS))], zsubs=[], zpos=[], junk=[])
+    out["split"], out["copy"] = case["split"], case["copy"]
+    if len(_LARGE) > 2:
+        _LARGE.clear()
+    _LARGE[key] = out
+    return out
+
+
+def _large_body(body):
+    def run(ctx, case):
+        if case["big"].get("simplest"):
+            ctx.skip("simplest-example-is-the-same-in-every-shard")
+        full = _expand_large(case)
+        ctx.label("big-shape-" + "x".join(str(v) for v in case["shape"]))
+        if "subs" in full:
+            n = len(full["subs"])
+            ctx.label("stored-" + ("<=12000" if n <= 12000 else ("<=20000" if n <= 20000 else ">20000")))
+        body(ctx, full)
+
+    return run
+
+
+cell("C01/large/dense-to-sparse", strategy=_large_case("dense"), quick=2, thorough=6)(_large_body(dense_to_sparse))
+cell("C01/large/tenmat", strategy=_large_case("dense"), quick=2, thorough=6)(_large_body(_tenmat_body))
+cell("C01/large/sparse-to-dense", strategy=_large_case("sparse"), quick=2, thorough=6)(_large_body(sparse_to_dense))
+cell("C01/large/sptenmat", strategy=_large_case("sparse"), quick=2, thorough=6)(_large_body(_sptenmat_body))
+
+
+HUGE_MODES = [2**40 + 7, 2**45 + 1, 2**53 + 5, 2**53 + 5, 2**60 + 1, 2**62]  # (an accidental dense result fails at once)
+SMALL_MODES = [1, 2, 3, 5]
+
+
+@st.composite
+def _huge_case(draw, tier):
+    """sparse tensor with 1..4 modes at least one of which is longer than 2**40 / 2**53 / 2**60, 0..6 stored entries
+    whose subscripts sit at the ends of the modes and just above 2**53, and an ordered mode split both sides of which
+    have fewer than 2**63 rows / columns (the whole tensor may have more cells than that)"""
+    N = draw(st.integers(1, 4))
+    for _ in range(20):
+        shape = [draw(st.sampled_from(HUGE_MODES + SMALL_MODES)) for _ in range(N)]
+        if max(shape) < 2**40:
+            shape[draw(st.integers(0, N - 1))] = draw(st.sampled_from(HUGE_MODES))
+        rd, cd = draw(gen.ordered_partition(N))
+        if ref.prod(shape[d] for d in rd) < 2**63 and ref.prod(shape[d] for d in cd) < 2**63:
+            break
+    else:
+        shape, rd, cd = [2**53 + 5] + [2] * (N - 1), [0], list(range(1, N))
+    k = draw(st.integers(0, 6))
+    subs = set()
+    for _ in range(k):
+        row = []
+        for n in shape:
+            how = draw(st.sampled_from(["zero", "last", "last", "near-last", "above-2^53", "above-2^40", "any"]))
+            v = {"zero": 0, "last": n - 1, "near-last": max(0, n - 1 - draw(st.integers(1, 3))), "above-2^53": 2**53 + draw(
+                st.integers(0, 3)), "above-2^40": 2**40 + draw(st.integers(0, 3))}.get(how)
+            if v is None or v >= n:
+                v = draw(st.integers(0, n - 1))
+            row.append(int(v))
+        subs.add(tuple(row))
+    subs = [list(r) for r in draw(st.permutations(sorted(subs)))]
+    vals = draw(st.lists(gen.NZ_INT_VALUES, min_size=len(subs), max_size=len(subs)))
+    return dict(shape=shape, rdims=rd, cdims=cd, subs=subs, vals=vals,
+                form=draw(st.sampled_from(["both", "both", "rdims", "cdims"])))
+
+
+def _sp_entries(S):
+    return {tuple(int(i) for i in r): float(v) for r, v in zip(np.asarray(S.subs).reshape(-1, len(S.shape)),
+                                                              np.asarray(S.vals).reshape(-1))} if S.subs.size else {}
+
+
+def _check_huge_sptensor(ctx, S, case, what):
+    want = {tuple(r): float(v) for r, v in zip(case["subs"], case["vals"])}
+    ctx.require(isinstance(S, ttb.sptensor), f"{what}-returns-sptensor", type(S).__name__)
+    ctx.check([int(n) for n in S.shape] == case["shape"], f"{what}-shape", f"{S.shape} vs {case['shape']}")
+    ctx.check(S.nnz == len(want), f"{what}-nnz", f"{S.nnz} vs {len(want)}")
+    ok = not S.subs.size or (np.issubdtype(S.subs.dtype, np.integer) and S.subs.shape == (len(case["subs"]), len(case["shape"])))
+    ctx.require(ok, f"{what}-subs-integer-array", f"{S.subs.dtype} {S.subs.shape}")
+    got = _sp_entries(S)
+    ctx.check(got == want, f"{what}-entries", f"{sorted(got.items())[:4]} vs {sorted(want.items())[:4]}")
+
+
+def _check_huge_sptenmat(ctx, M, case, what):
+    shape, rd, cd = case["shape"], case["rdims"], case["cdims"]
+    ctx.require(isinstance(M, ttb.sptenmat), f"{what}-returns-sptenmat", type(M).__name__)
+    ctx.check(_ints(M.rdims) == rd and _ints(M.cdims) == cd, f"{what}-split", f"{M.rdims} {M.cdims} vs {rd} {cd}")
+    ctx.check(_shape_of_t(M.tshape) == tuple(shape), f"{what}-tshape", f"{M.tshape}")
+    shape2 = (ref.prod(shape[d] for d in rd), ref.prod(shape[d] for d in cd))
+    ctx.check(tuple(int(v) for v in M.shape) == shape2, f"{what}-matrix-shape", f"{M.shape} vs {shape2}")
+    want = {(ref.lin_index([s[d] for d in rd], [shape[d] for d in rd]), ref.lin_index([s[d] for d in cd], [shape[d] for d in cd])):
+            float(v) for s, v in zip(case["subs"], case["vals"])}
+    ctx.check(M.nnz == len(want), f"{what}-nnz", f"{M.nnz} vs {len(want)}")
+    if M.subs.size:
+        ctx.require(np.issubdtype(M.subs.dtype, np.integer) and M.subs.ndim == 2 and M.subs.shape[1] == 2,
+                    f"{what}-subs-integer-array", f"{M.subs.dtype} {M.subs.shape}")
+        got = {(int(r[0]), int(r[1])): float(v) for r, v in zip(M.subs, np.asarray(M.vals).reshape(-1))}
+    else:
+        got = {}
+    ctx.check(got == want, f"{what}-index-formula", f"{sorted(got.items())[:3]} vs {sorted(want.items())[:3]}")
+    return want
+
+
+@cell("C01/huge/sptenmat", strategy=_huge_case, quick=150, thorough=3000)
+def huge_sptenmat(ctx, case):
+    """sparse <-> sparse-matricized on modes longer than 2**40 / 2**53 / 2**60 and more than 2**63 cells"""
+    shape, rd, cd = case["shape"], case["rdims"], case["cdims"]
+    N = len(shape)
+    ctx.label(f"order{N}", "cells>2^63" if ref.prod(shape) >= 2**63 else "cells<2^63",
+              "mode>2^53" if max(shape) > 2**53 else "mode<=2^53", f"nnz{min(len(case['subs']), 3)}",
+              "subscript>2^53" if any(v > 2**53 for r in case["subs"] for v in r) else "subscripts<=2^53",
+              "form-" + case["form"], "rows-empty" if not rd else ("cols-empty" if not cd else "both-sides"))
+    ctx.nt = len(case["subs"]) >= 2 and N >= 2
+    ia = lambda v: np.array(v, dtype=int)  # noqa: E731
+    kw = dict(rdims=ia(rd), cdims=ia(cd)) if case["form"] == "both" else (
+        dict(rdims=ia(rd)) if case["form"] == "rdims" else dict(cdims=ia(cd)))
+    if case["form"] == "rdims":
+        case = dict(case, cdims=[m for m in range(N) if m not in rd])
+    elif case["form"] == "cdims":
+        case = dict(case, rdims=[m for m in range(N) if m not in cd])
+    if ref.prod(shape[d] for d in case["rdims"]) >= 2**63 or ref.prod(shape[d] for d in case["cdims"]) >= 2**63:
+        ctx.skip("a side of the split has 2**63 or more rows / columns")
+    with ctx.sut("sptensor()"):
+        if case["subs"]:
+            S = ttb.sptensor(np.array(case["subs"], dtype=np.int64).reshape(-1, N),
+                             np.array(case["vals"], dtype=float).reshape(-1, 1), tuple(shape))
+        else:
+            S = ttb.sptensor(shape=tuple(shape))
+    _check_huge_sptensor(ctx, S, case, "sptensor()")
+    live = Live(ctx)
+    live.keep("operand", S)
+    with ctx.sut("sptensor.to_sptenmat"):
+        M = S.to_sptenmat(**kw)
+    want = _check_huge_sptenmat(ctx, M, case, "to_sptenmat")
+    live.keep("to_sptenmat", M)
+    live.keep("sptenmat.to_sptensor", _stage(ctx, "sptenmat.to_sptensor", M.to_sptensor,
+                                             lambda S2: _check_huge_sptensor(ctx, S2, case, "sptenmat.to_sptensor")))
+    live.keep("sptenmat.copy", _stage(ctx, "sptenmat.copy", M.copy, lambda Mc: _check_huge_sptenmat(ctx, Mc, case, "sptenmat.copy")))
+    live.keep("sptensor.copy", _stage(ctx, "sptensor.copy", S.copy, lambda S2: _check_huge_sptensor(ctx, S2, case, "sptensor.copy")))
+    if want:
+        rc = sorted(want)
+        if len(rc) > 1 and case["vals"][0] > 0:
+            rc = rc[::-1]
+
+        def ctor():
+            return ttb.sptenmat(np.array([list(k) for k in rc], dtype=np.int64).reshape(-1, 2),
+                                np.array([want[k] for k in rc]).reshape(-1, 1), tshape=tuple(shape), **kw)
+
+        M2 = _stage(ctx, "sptenmat()", ctor, lambda M2: _check_huge_sptenmat(ctx, M2, case, "sptenmat()"))
+        if M2 is not None:
+            _stage(ctx, "sptenmat().to_sptensor", M2.to_sptensor,
+                   lambda S2: _check_huge_sptensor(ctx, S2, case, "sptenmat().to_sptensor"))
+    live.judge("later-conversions")
+    live.edit_all()
 
 
 # --------------------------------------------------------------------------
